@@ -89,6 +89,24 @@ def make_case(rng):
     nank = "none"
     if not skind.startswith("tail") and rng.uniform() < 0.4:
         nank, E = gs.apply_nan(rng, E, str(rng.choice(["single", "run", "scatter"])))
+    if skind.startswith("tail") and not skind.startswith("tailmin"):
+        u = rng.uniform()
+        if u < 0.25:
+            # missing bins below the f^-4 range (outside it, but inside the searched band): the level is still c
+            E = np.array(np.broadcast_to(E, shape), dtype=float)
+            below = np.broadcast_to(f < np.broadcast_to(ft, lead + (1,)), shape)
+            pick = below & (rng.uniform(0, 1, shape) < 0.35)
+            if lead:
+                # not in every member of the batch
+                keep = rng.uniform(0, 1, lead + (1,)) < 0.6
+                pick = pick & keep
+            E[pick] = np.nan
+            nank = "below-range"
+        elif u < 0.5:
+            # a record that was zero-padded above fmax (0.5 Hz): bins above fmax are outside the searched band
+            E = np.array(np.broadcast_to(E, shape), dtype=float)
+            E[..., f > 0.5 + 1e-9] = 0.0
+            nank = "zero-above-fmax"
     case = {"kind": "1d", "layout": layout, "fkind": "uniform", "ekind": skind, "nankind": nank, "freq": f,
             "E": E, "a1": a1, "b1": b1, "a2": a2, "b2": b2}
     case.update(gs._lead_vars(rng, layout, lead, "inf"))
